@@ -48,9 +48,42 @@ def run_seed(run_seed):
     return derive("run", run_seed)
 
 
-def execute(mod, seed=None, replay=None, keep_trace=False):
+def depth_of(index, deep_from):
+    """Exploration depth of run `index`: 1 below `deep_from` (None = never deeper), else 1, 2 or 3 by index."""
+    if deep_from is None or index < deep_from:
+        return 1
+    return 1 + (index % 3)
+
+
+def _run_scenario(mod, sim):
+    """One scenario execution, or - for modules that set TWIN_P - with that probability (drawn from the tape first) two
+    executions in a row inside the same run: a first instance of everything the scenario builds is driven through a whole
+    history and abandoned, then a second, independent instance is driven and judged as usual on a fresh clock.  Anything the
+    first instance left behind in state that instances must not share (class attributes, module-level caches and registries)
+    meets the second one inside ONE replayable run.  (Run-to-run leakage between separate runs of a warm worker would only show
+    up as a violation that does not replay in a fresh interpreter, i.e. as a harness error.)"""
+    p = getattr(mod, "TWIN_P", 0.0)
+    if p and sim.draw_bool(p, "twin_instance"):
+        sim.probe("twin_first_instance_run")
+        sim.event("twin", "first-instance")
+        mod.run(sim)
+        first = sim.config
+        sim.config = {}
+        sim.steps = 0
+        sim.nontrivial = None
+        _clock.bind(sim)
+        sim.event("twin", "second-instance")
+        mod.run(sim)
+        if isinstance(sim.config, dict):
+            sim.config = dict(sim.config, twin_first_instance=_jsonable(first))
+    else:
+        mod.run(sim)
+
+
+def execute(mod, seed=None, replay=None, keep_trace=False, depth=1):
     """One run.  Returns (sim, violation|None).  Harness exceptions propagate."""
     sim = Sim(mod.ID, seed=seed, replay=replay, keep_trace=keep_trace)
+    sim.depth = depth
     _clock.bind(sim)
     # Two watchdogs: CPU time (a loop that does not terminate burns CPU; immune to VM stalls and
     # load) decides "does not terminate"; wall time (generous) only catches blocked harnesses.
@@ -62,7 +95,7 @@ def execute(mod, seed=None, replay=None, keep_trace=False):
     signal.setitimer(signal.ITIMER_PROF, limit)
     try:
         try:
-            mod.run(sim)
+            _run_scenario(mod, sim)
             return sim, sim.violation
         except Violation as v:
             return sim, sim.violation or v
@@ -105,26 +138,29 @@ _MOD = None
 
 def _batch(args):
     """Run indices [start, start+count) for base seed; return aggregate."""
-    base_seed, start, count, nsamples = args
+    base_seed, start, count, nsamples, deep_from = args
     mod = _MOD
     faulthandler.enable()
     agg = {
         "runs": 0, "nontrivial": 0, "digests": set(), "faults": Counter(),
         "probes": Counter(), "states": set(), "sim_time": 0.0, "steps": 0,
         "violations": [], "samples": [], "errors": [], "fallbacks": 0,
-        "first": start, "known_seen": Counter(),
+        "first": start, "known_seen": Counter(), "deep": 0,
     }
     known = load_known(mod.ID)
     for i in range(start, start + count):
         seed = derive(base_seed, mod.ID, i)
+        depth = depth_of(i, deep_from)
         try:
-            sim, v = execute(mod, seed=seed, keep_trace=(len(agg["samples"]) < nsamples))
+            sim, v = execute(mod, seed=seed, keep_trace=(len(agg["samples"]) < nsamples), depth=depth)
         except (Exception, HarnessTimeout) as e:
             agg["errors"].append((i, "".join(traceback.format_exception(type(e), e, e.__traceback__))[-3000:]))
             if len(agg["errors"]) >= 3:
                 break
             continue
         agg["runs"] += 1
+        if depth > 1:
+            agg["deep"] += 1
         agg["faults"].update(sim.faults)
         agg["probes"].update(sim.probes)
         agg["sim_time"] += sim.sim_time
@@ -143,8 +179,9 @@ def _batch(args):
                 # a listed known finding ends this run only; the batch goes on
                 agg["known_seen"][e["signature"]] += 1
                 continue
-            agg["violations"].append((i, seed, v.signature, v.detail[:600], list(sim.tape.rec)))
-            if len(agg["violations"]) >= 4:
+            agg["violations"].append((i, seed, v.signature, v.detail[:600], list(sim.tape.rec), depth,
+                                      bool(sim.probes.get("twin_first_instance_run"))))
+            if len(agg["violations"]) >= 6:
                 break
     return agg
 
@@ -179,7 +216,7 @@ def match_known(known, signature):
 
 # ---------------------------------------------------------------- shrinking
 
-def shrink(mod, tape, signature, budget_s=25.0, max_runs=3000):
+def shrink(mod, tape, signature, budget_s=25.0, max_runs=3000, depth=1):
     """Generic tape minimiser: delete chunks, lower values, while the same
     violation signature recurs."""
     t0 = time.time()
@@ -190,14 +227,14 @@ def shrink(mod, tape, signature, budget_s=25.0, max_runs=3000):
             return False
         runs[0] += 1
         try:
-            sim, v = execute(mod, replay=cand)
+            sim, v = execute(mod, replay=cand, depth=depth)
         except (Exception, HarnessTimeout):
             return False
         return v is not None and v.signature == signature
 
     # cut the unread tail
     try:
-        sim, v = execute(mod, replay=tape)
+        sim, v = execute(mod, replay=tape, depth=depth)
     except (Exception, HarnessTimeout):
         return list(tape)
     if v is None or v.signature != signature:
@@ -238,15 +275,16 @@ def shrink(mod, tape, signature, budget_s=25.0, max_runs=3000):
 
 # ---------------------------------------------------------------- replay files
 
-def write_replay(mod, seed, run_index, tape, base_seed):
+def write_replay(mod, seed, run_index, tape, base_seed, depth=1):
     os.makedirs(REPLAYS, exist_ok=True)
-    sim, v = execute(mod, replay=tape, keep_trace=True)
+    sim, v = execute(mod, replay=tape, keep_trace=True, depth=depth)
     doc = {
         "property": mod.ID,
         "base_seed": base_seed,
         "run_index": run_index,
         "run_seed": seed,
         "tape": list(tape),
+        "depth": depth,
         "signature": v.signature if v else None,
         "detail": v.detail if v else None,
         "digest": sim.digest(),
@@ -263,7 +301,7 @@ def write_replay(mod, seed, run_index, tape, base_seed):
 def replay_file(mod, path, verbose=True):
     with open(path) as f:
         doc = json.load(f)
-    sim, v = execute(mod, replay=doc["tape"], keep_trace=True)
+    sim, v = execute(mod, replay=doc["tape"], keep_trace=True, depth=int(doc.get("depth", 1) or 1))
     if verbose:
         for line in sim.trace:
             print("  " + line)
@@ -283,6 +321,15 @@ def confirm_in_fresh_interpreter(mod, path):
     return ("REPRODUCED-EXACTLY" in p.stdout), p.stdout[-2000:] + p.stderr[-2000:]
 
 
+def _rebase_in_fresh_interpreter(mod, path):
+    cmd = [sys.executable, os.path.join(VERIF, "check"), mod.ID, "--rebase", path]
+    try:
+        p = subprocess.run(cmd, env=dict(os.environ), capture_output=True, text=True, timeout=120)
+    except subprocess.TimeoutExpired:
+        return False
+    return "REBASED signature=" in p.stdout
+
+
 # ---------------------------------------------------------------- main search
 
 def search(mod, tier, base_seed, workers=None, budget_s=None, max_runs=None, quiet=False):
@@ -298,6 +345,10 @@ def search(mod, tier, base_seed, workers=None, budget_s=None, max_runs=None, qui
         floor = getattr(mod, "THOROUGH_FLOOR", getattr(mod, "QUICK_RUNS", 2000) * 4)
         budget = getattr(mod, "THOROUGH_BUDGET_S", 240.0)
         target = None
+    # thorough: run indices below QUICK_RUNS are exactly the quick tier's runs; beyond that the exploration depth varies (1..3)
+    deep_from = getattr(mod, "QUICK_RUNS", 2000) if (tier != "quick" and getattr(mod, "USES_DEPTH", False)) else None
+    if tier == "quick":
+        pass
     if os.environ.get("VERIF_BUDGET_S"):
         budget = float(os.environ["VERIF_BUDGET_S"])
         if tier == "quick":
@@ -312,7 +363,7 @@ def search(mod, tier, base_seed, workers=None, budget_s=None, max_runs=None, qui
 
     tot = {
         "runs": 0, "nontrivial": 0, "faults": Counter(), "probes": Counter(),
-        "sim_time": 0.0, "steps": 0, "samples": [], "errors": [],
+        "sim_time": 0.0, "steps": 0, "samples": [], "errors": [], "deep": 0,
     }
     digests = set()
     states = set()
@@ -328,6 +379,7 @@ def search(mod, tier, base_seed, workers=None, budget_s=None, max_runs=None, qui
     next_start = 0
     pending = set()
     stop = False
+    first_violation_at = None
     with ProcessPoolExecutor(max_workers=workers, mp_context=ctx) as ex:
         def submit():
             nonlocal next_start
@@ -336,7 +388,7 @@ def search(mod, tier, base_seed, workers=None, budget_s=None, max_runs=None, qui
                 cnt = min(batch, target - next_start)
                 if cnt <= 0:
                     return False
-            pending.add(ex.submit(_batch, (base_seed, next_start, cnt, 2 if len(tot["samples"]) < 4 else 0)))
+            pending.add(ex.submit(_batch, (base_seed, next_start, cnt, 2 if len(tot["samples"]) < 4 else 0, deep_from)))
             next_start += cnt
             return True
 
@@ -358,6 +410,7 @@ def search(mod, tier, base_seed, workers=None, budget_s=None, max_runs=None, qui
                     stop = True
                     continue
                 tot["runs"] += agg["runs"]
+                tot["deep"] += agg.get("deep", 0)
                 tot["nontrivial"] += agg["nontrivial"]
                 tot["faults"].update(agg["faults"])
                 tot["probes"].update(agg["probes"])
@@ -373,8 +426,15 @@ def search(mod, tier, base_seed, workers=None, budget_s=None, max_runs=None, qui
                 known_seen.update(agg["known_seen"])
                 for viol in agg["violations"]:
                     violations.append(viol)
-            if violations or tot["errors"]:
+            if tot["errors"]:
                 stop = True
+            if violations:
+                # keep collecting for a moment: when state leaks from one run into the next (warm worker), the first violations
+                # seen need not replay in a fresh interpreter, while a later one (e.g. a twin-instance run) does
+                if first_violation_at is None:
+                    first_violation_at = now
+                if len(violations) >= 40 or now - first_violation_at > 6 or not getattr(mod, "TWIN_P", 0.0):
+                    stop = True
             over_budget = (now - t0) > budget and next_start >= floor
             if now > hard_deadline:
                 tot["errors"].append((-1, "hard deadline exceeded"))
@@ -418,6 +478,7 @@ def write_evidence(mod, tier, base_seed, res, nviol, extra=None):
         "components": getattr(mod, "COMPONENTS", {}),
         "known_findings_seen": dict(res["known_seen"]),
         "workers": res["workers"],
+        "runs_at_depth_gt_1": tot.get("deep", 0),
         "technique": getattr(mod, "TECHNIQUE", "deterministic simulation, seeded schedule/fault search"),
     }
     if extra:
@@ -475,30 +536,52 @@ def main_check(mod, tier, base_seed, quiet=False):
     rc = 0
     unconfirmed = []
     if res["violations"]:
-        # report distinct signatures, lowest run index first
-        seen = set()
-        for (idx, seed, sig, detail, tape) in res["violations"]:
-            if sig in seen:
+        # report distinct signatures, lowest run index first (twin-instance runs first: they carry their own context and replay
+        # in a fresh interpreter even when the violation needs state left behind by an earlier instance)
+        confirmed = set()
+        failed = {}
+        attempts = 0
+        ordered = sorted(res["violations"], key=lambda t: (not t[6], t[0]))
+        for (idx, seed, sig, detail, tape, depth, twin) in ordered:
+            if sig in confirmed or len(confirmed) >= 3 or attempts >= 10:
                 continue
-            seen.add(sig)
-            if len(seen) > 3:
-                break
-            small = shrink(mod, tape, sig, budget_s=getattr(mod, "SHRINK_BUDGET_S", 25.0))
-            path, doc = write_replay(mod, seed, idx, small, base_seed)
+            if failed.get(sig, 0) >= (2 if twin else 1):
+                continue
+            attempts += 1
+            small = shrink(mod, tape, sig, budget_s=getattr(mod, "SHRINK_BUDGET_S", 25.0), depth=depth)
+            path, doc = write_replay(mod, seed, idx, small, base_seed, depth)
             if doc["signature"] != sig:
                 # shrinking must preserve the signature; fall back to the full tape
-                path, doc = write_replay(mod, seed, idx, tape, base_seed)
+                path, doc = write_replay(mod, seed, idx, tape, base_seed, depth)
             ok, out = confirm_in_fresh_interpreter(mod, path)
+            if not ok and twin and "replay signature:" in out:
+                # a twin-instance run carries its own context: replayed cold it still violates, though the first failing clause
+                # may differ from the one seen in the warm worker.  Re-baseline it on the full tape in a fresh interpreter and
+                # confirm that (a second fresh interpreter must reproduce it exactly).
+                path, doc = write_replay(mod, seed, idx, tape, base_seed, depth)
+                rb = _rebase_in_fresh_interpreter(mod, path)
+                if rb:
+                    ok, out = confirm_in_fresh_interpreter(mod, path)
+                    if ok:
+                        with open(path) as f:
+                            doc = json.load(f)
+                        sig, small = doc["signature"], doc["tape"]
+                        if sig in confirmed:
+                            continue
             if not ok:
                 # never reported as a violation; a violation that does replay exactly (before or after this one) still stands
                 print("HARNESS-ERROR property=%s violation %s did not replay identically in a fresh interpreter (%s)\n%s"
                       % (mod.ID, sig, path, out))
-                unconfirmed.append(sig)
+                failed[sig] = failed.get(sig, 0) + 1
+                if sig not in unconfirmed:
+                    unconfirmed.append(sig)
                 continue
+            confirmed.add(sig)
             nviol += 1
             print("violation: %s\n  detail: %s\n  run_index=%d tape_len=%d (from %d)" % (sig, doc["detail"], idx, len(small), len(tape)))
             print("VIOLATION property=%s replay=%s" % (mod.ID, path))
             rc = 1
+        unconfirmed = [x for x in unconfirmed if x not in confirmed]
     if unconfirmed and rc == 0:
         write_evidence(mod, tier, base_seed, res, 0, {"harness_errors": ["non-replayable violation " + x for x in unconfirmed]})
         return 2
